@@ -27,13 +27,13 @@ META = {
         "engine theorems are about the propositional instantiation of SolverStuff (ground and-or graphs)",
         "SLG interruption (QuantumExceeded -> Ambig) is covered by differential sweeps, not by a model",
     ],
-    "quick_s": 60, "thorough_s": 700,
+    "quick_s": 90, "thorough_s": 900,
 }
 
 
 def engine_part(ctx):
     rng = ctx.rng
-    n = ctx.n(60, 2500)
+    n = ctx.n(60, 400)
     base = []
     for i in range(n):
         shape, G = E.gen_graph(rng, E.SHAPES[i % len(E.SHAPES)] if i < 3 * len(E.SHAPES) else None)
@@ -121,7 +121,7 @@ SOLVERS = [("slg", H.SLG), ("rec", H.REC)]
 
 def solver_part(ctx):
     rng = ctx.rng
-    progs = H.programs(rng, ctx.n(3, 80), goals_per=(2, 1, 1))
+    progs = H.programs(rng, ctx.n(3, 20), goals_per=(2, 1, 1))
     # phase 1: clean limited runs (callback count) and fresh answers
     c1, i1 = [], []
     for pi, (p, text, goals, gts) in enumerate(progs):
@@ -143,7 +143,7 @@ def solver_part(ctx):
                 K = calls.get((pi, sname, gi))
                 if K is None:
                     continue
-                ks = list(range(min(K, ctx.n(40, 400))))
+                ks = list(range(min(K, ctx.n(40, 60))))
                 if ctx.quick and len(ks) > 5:
                     ks = ks[:2] + rng.sample(ks[2:-1], 2) + ks[-1:]
                 for k in ks:
